@@ -29,7 +29,7 @@ GenNets == {<<<<Pfx(4, 0, 1)>>, 0>>, <<<<Pfx(4, 4, 2), Pfx(4, 12, 3)>>, 0>>, <<<
 GenRules == {Rule(a, f, AnyIA, n[1], n[2]) : a \in {"accept", "reject", "advertise"}, f \in GenFrom, n \in GenNets}
             \cup {Rule(a, AnyIA, t, <<Pfx(4, 8, 1)>>, 0) : a \in {"accept", "reject", "advertise"},
                                                            t \in {IAM(2, 0, 1), IAM(2, A2, 0)}}
-GenRulesQuick == {Rule(a, f, AnyIA, n[1], n[2]) : a \in {"accept", "reject", "advertise"}, f \in {AnyIA, IAM(1, A1, 1)},
+GenRulesQuick == {Rule(a, f, AnyIA, n[1], n[2]) : a \in {"accept", "reject", "advertise"}, f \in {AnyIA, IAM(1, A1, 1), IAM(0, A1, 0)},
                     n \in {<<<<Pfx(4, 0, 1)>>, 0>>, <<<<Pfx(4, 4, 2), Pfx(4, 12, 3)>>, 0>>, <<<<Pfx(4, 4, 2)>>, 1>>}}
             \cup {Rule(a, AnyIA, t, <<Pfx(4, 8, 1)>>, 0) : a \in {"accept", "reject", "advertise"},
                                                            t \in {IAM(2, 0, 1), IAM(2, A2, 0)}}
